@@ -41,6 +41,7 @@ def build_cmd(demo_src):
     c = re.sub(r"/tmp/seed\d+", WT, c)
     c = c.replace("<wt>", WT).replace("$WT", WT) if "WT=" not in c else c.replace("<wt>", WT)
     c = re.sub(r"\s{2,}\(.*$", "", c)          # trailing explanation in parentheses
+    c = re.sub(r"^cd\s+\S+\s*&&\s*", "", c)     # build in the scratch copy, not in the delivery directory
     c = re.sub(r"&&\s*\./\S+.*$", "", c).strip()
     return c
 
@@ -48,7 +49,7 @@ def build_cmd(demo_src):
 def run_demo(src_dir, tag):
     d = "%s_demo_%s" % (WT, tag)
     shutil.rmtree(d, ignore_errors=True)
-    shutil.copytree(src_dir, d, ignore=shutil.ignore_patterns("demo", "demo_p", "demo_mut", "*.o", "a.out"))
+    shutil.copytree(src_dir, d, ignore=shutil.ignore_patterns("demo", "demo_p", "demo_mut", "a.out", "demo_c*", "*.o"))
     cmd = build_cmd(os.path.join(d, "demo.cpp"))
     rc, out = sh(cmd, cwd=d)
     if rc != 0:
@@ -73,6 +74,19 @@ def main():
     if "--src" in sys.argv:
         src = sys.argv[sys.argv.index("--src") + 1]
     res = {"property": pid}
+    if "--suite-only" in sys.argv:
+        # second pass: only confirm that the 70 stable tests still pass with the patch; update the filed meta.json
+        dst = os.path.join(V, "seeded", pid)
+        sh("git checkout -q --detach $(git -C /repo rev-parse HEAD) && git reset -q --hard && git clean -fdq -e _build", cwd=WT)
+        rc, out = sh("git apply %s/patch.diff 2>&1 || patch -p1 -s < %s/patch.diff" % (dst, dst), cwd=WT)
+        rc, out = sh("BASELINE_REPO=%s %s/tools/baseline_off.sh" % (WT, V))
+        sh("git reset -q --hard && git clean -fdq -e _build", cwd=WT)
+        meta = json.load(open(os.path.join(dst, "meta.json")))
+        meta.setdefault("verified_by_maintainer", {})["baseline_with_patch"] = out.strip().splitlines()[-1] if out.strip() else "no output"
+        meta["verified_by_maintainer"]["baseline_ok"] = rc == 0
+        json.dump(meta, open(os.path.join(dst, "meta.json"), "w"), indent=1)
+        print(pid, meta["verified_by_maintainer"]["baseline_with_patch"])
+        return
     if not os.path.exists(WT):
         sh("git -C /repo worktree add -q --detach %s HEAD" % WT)
     sh("git checkout -q --detach $(git -C /repo rev-parse HEAD) && git reset -q --hard && git clean -fdq -e _build", cwd=WT)
